@@ -1,4 +1,6 @@
 import AGV.Lemmas.DynCheck
+import AGV.Lemmas.DynCycle
+import AGV.Lemmas.DynStages
 /-
   C33 — dynamic schemas build exactly when the type system is valid.
 
@@ -15,25 +17,25 @@ import AGV.Lemmas.DynCheck
   OBLIGATION c33_witness_subscription_fields
   OBLIGATION c33_witness_fieldless_interface
   OBLIGATION c33_repaired_on_witnesses
-  OPEN c33_accept_sound
-  OPEN c33_accept_complete
+  OBLIGATION c33_accept_sound
+  OBLIGATION c33_accept_complete
+  OBLIGATION c33_cycle_search_is_requires
+  OBLIGATION c33_requiresItself_is_requires
 
-  `c33_accept_sound` / `c33_accept_complete` (the two directions of "builds exactly when valid")
-  are stated and NOT proved; what is proved of them: the stage decomposition of `check`, the
-  equality of `TypeRef::is_subtype` with the specification's IsValidImplementationFieldType, the
-  agreement of the type map with the specification's name resolution, and the
-  safety half (`c33_safe`).  The rest of the tie between model and reference is the sampled
-  correspondence (the judge evaluates `Spec.required?`/`Spec.extra?` on every case).
+  `c33_accept_sound` / `c33_accept_complete` are the two directions of "builds exactly when valid"
+  for the toggle-free model, over all type systems: an accepted type system satisfies every rule
+  the statement lists (`Spec.Required`), and a type system valid by all of §3 (`Required ∧ Extra`)
+  is accepted.  Both are assembled through `c33_check_stages` from one lemma per stage
+  (Lemmas/DynStages.lean: `check…_ok_iff`).  The input-object cycle clause links three things
+  (Lemmas/DynCycle.lean): the model's chain-guarded depth-first search `refCheck` with its fuel,
+  the reference's inductive relation `Requires`, and the reference's bounded closure computation
+  `requiresItself` (`c33_cycle_search_is_requires`, `c33_requiresItself_is_requires`; loop
+  erasure on walks + pigeonhole bound by the number of registered types).
+  The tie between the model and the Rust code stays the sampled correspondence.
 -/
 namespace AGV.Props.C33
-open AGV.Model.DynCheck AGV.Model.DynLookups AGV.Lemmas.DynCheck
-open AGV.Spec.TypeSystem (validImplFieldType required? extra? lookup rootsOk isObjectNamed isSubscriptionNamed
-  Required Extra ValidTypeSystem)
-
-/-- OPEN: with every defect repaired, an accepted type system satisfies the rules the statement lists -/
-def c33_accept_sound : Prop := ∀ T : TypeSystem, check {} T = .ok () → Required T
-/-- OPEN: with every defect repaired, a type system valid by all of §3 is accepted -/
-def c33_accept_complete : Prop := ∀ T : TypeSystem, ValidTypeSystem T → check {} T = .ok ()
+open AGV.Model.DynCheck AGV.Model.DynLookups AGV.Lemmas.DynCheck AGV.Lemmas.DynStages AGV.Lemmas.DynCycle
+open AGV.Spec.TypeSystem
 
 /-- `cur.is_subtype(sub)` is the specification's IsValidImplementationFieldType(sub, cur), for
     every pair of type references and every relation on named types -/
@@ -102,6 +104,341 @@ theorem c33_safe (T : TypeSystem) (h : check {} T = .ok ()) : ∀ p ∈ lookups 
     | scalar n => simp at hpt
     | upload => simp at hpt
 
+-- ------------------------------------------------------------------ builds exactly when valid
+
+theorem isObjectNamed_iff (T : TypeSystem) (n : String) :
+    isObjectNamed T n = true ↔ (lookup T n).isSome = true ∧ ∀ t, lookup T n = some t → t.isObject = true := by
+  unfold isObjectNamed
+  cases lookup T n with
+  | none => simp
+  | some t => cases t <;> simp [TypeDef.isObject]
+
+theorem isSubscriptionNamed_iff (T : TypeSystem) (n : String) :
+    isSubscriptionNamed T n = true ↔ (lookup T n).isSome = true ∧ ∀ t, lookup T n = some t → t.isSubscription = true := by
+  unfold isSubscriptionNamed
+  cases lookup T n with
+  | none => simp
+  | some t => cases t <;> simp [TypeDef.isSubscription]
+
+theorem mem_fieldTypeNames (fs : List Field) (n : String) :
+    n ∈ fieldTypeNames fs ↔ ∃ f ∈ fs, n = f.ty.typeName ∨ ∃ a ∈ f.args, n = a.ty.typeName := by
+  simp only [fieldTypeNames, List.mem_flatMap, List.mem_cons, List.mem_map]
+  constructor
+  · rintro ⟨f, hf, h | ⟨a, ha, rfl⟩⟩
+    · exact ⟨f, hf, Or.inl h⟩
+    · exact ⟨f, hf, Or.inr ⟨a, ha, rfl⟩⟩
+  · rintro ⟨f, hf, h | ⟨a, ha, rfl⟩⟩
+    · exact ⟨f, hf, Or.inl h⟩
+    · exact ⟨f, hf, Or.inr ⟨a, ha, rfl⟩⟩
+
+theorem mem_builtinNames (n : String) : n ∈ builtinNames ↔ n ∈ systemScalars := by
+  simp only [builtinNames, systemScalars, List.mem_cons, List.not_mem_nil, or_false]
+  constructor <;> (intro h; rcases h with h | h | h | h | h <;> simp [h])
+
+/-- the reference's typing and reserved-name clauses on the fields of one type give the model's
+    per-field checks and the existence of every named type -/
+theorem fields_checks_of_typed (T : TypeSystem) (owner : String) (fs : List Field)
+    (hty : fs.all (fun f => namesOutput T f.ty && f.args.all (fun a => namesInput T a.ty)) = true)
+    (hres : fs.all (fun f => !reservedName f.name && f.args.all (fun a => !reservedName a.name)) = true) :
+    (∀ f ∈ fs, checkField (allTypes T) owner f = .ok ()) ∧ ∀ n ∈ fieldTypeNames fs, (lookup T n).isSome = true := by
+  simp only [List.all_eq_true, Bool.and_eq_true, Bool.not_eq_true'] at hty hres
+  constructor
+  · intro f hf
+    rw [checkField_ok_iff]
+    refine ⟨(hres f hf).1, ((namesOutput_iff T f.ty).1 (hty f hf).1).2, ?_⟩
+    intro a ha
+    exact ⟨(hres f hf).2 a ha, ((namesInput_iff T a.ty).1 ((hty f hf).2 a ha)).2⟩
+  · intro n hn
+    obtain ⟨f, hf, rfl | ⟨a, ha, rfl⟩⟩ := (mem_fieldTypeNames fs n).1 hn
+    · have := ((namesOutput_iff T f.ty).1 (hty f hf).1).1
+      rwa [getType_allTypes] at this
+    · have := ((namesInput_iff T a.ty).1 ((hty f hf).2 a ha)).1
+      rwa [getType_allTypes] at this
+
+theorem checkImplements_of_spec (T : TypeSystem) (kind name : String) (fields : List Field) (impls : List String)
+    (h1 : ∀ i ∈ impls, (match lookup T i with
+      | some (.interface ..) => true
+      | _ => false) = true)
+    (h2 : (impls.all fun i => match lookup T i with
+      | some (.interface _ _ ifs) => ifs.all (fieldImplemented T fields)
+      | _ => true) = true) :
+    checkImplements {} (allTypes T) kind name fields impls = .ok () := by
+  rw [checkImplements_ok_iff]
+  rw [List.all_eq_true] at h2
+  intro i hi t hl
+  have a := h1 i hi
+  have b := h2 i hi
+  rw [hl] at a b
+  cases t <;> simp at a
+  exact ⟨_, _, _, rfl, b⟩
+
+/-- the fields of one object / interface / subscription: existence of every named type and the
+    model's per-field checks give the reference's typing clause -/
+theorem fields_typed_of_checks (T : TypeSystem) (owner : String) (fs : List Field)
+    (hex : ∀ n ∈ fieldTypeNames fs, (lookup T n).isSome = true)
+    (hck : ∀ f ∈ fs, checkField (allTypes T) owner f = .ok ()) :
+    fs.all (fun f => namesOutput T f.ty && f.args.all (fun a => namesInput T a.ty)) = true := by
+  simp only [List.all_eq_true, Bool.and_eq_true]
+  intro f hf
+  obtain ⟨_, ho, ha⟩ := (checkField_ok_iff _ _ _).1 (hck f hf)
+  refine ⟨(namesOutput_iff T f.ty).2 ⟨?_, ho⟩, ?_⟩
+  · rw [getType_allTypes]; exact hex _ ((mem_fieldTypeNames fs _).2 ⟨f, hf, Or.inl rfl⟩)
+  · intro a haa
+    refine (namesInput_iff T a.ty).2 ⟨?_, (ha a haa).2⟩
+    rw [getType_allTypes]; exact hex _ ((mem_fieldTypeNames fs _).2 ⟨f, hf, Or.inr ⟨a, haa, rfl⟩⟩)
+
+theorem impls_of_checkImplements (T : TypeSystem) (kind name : String) (fields : List Field) (impls : List String)
+    (h : checkImplements {} (allTypes T) kind name fields impls = .ok ()) :
+    (impls.all fun i => match lookup T i with
+      | some (.interface _ _ ifs) => ifs.all (fieldImplemented T fields)
+      | _ => true) = true := by
+  rw [checkImplements_ok_iff] at h
+  rw [List.all_eq_true]
+  intro i hi
+  cases hl : lookup T i with
+  | none => rfl
+  | some t =>
+    obtain ⟨n, is, ifs, rfl, hall⟩ := h i hi t hl
+    exact hall
+
+/-- with every defect repaired, an accepted type system satisfies the rules the statement lists -/
+theorem c33_accept_sound : ∀ T : TypeSystem, check {} T = .ok () → Required T := by
+  intro T h
+  obtain ⟨h1, h2, h3, h4, h5, h6, h7, h8⟩ := (c33_check_stages {} T).1 h
+  rw [register_ok_iff] at h1
+  rw [checkTypesExists_ok_iff] at h2
+  rw [checkRootTypes_ok_iff] at h3
+  rw [checkObjects_ok_iff] at h4
+  rw [checkInputObjects_ok_iff] at h5
+  rw [checkInterfaces_ok_iff] at h6
+  rw [checkUnions_ok_iff] at h7
+  rw [checkSubscriptions_ok_iff] at h8
+  unfold Required required?
+  simp only [Bool.and_eq_true]
+  refine ⟨⟨⟨⟨?roots, ?pos⟩, ?impl⟩, ?unions⟩, ?cycle⟩
+  case roots =>
+    unfold rootsOk
+    simp only [Bool.and_eq_true]
+    refine ⟨⟨?_, ?_⟩, ?_⟩
+    · exact (isObjectNamed_iff T _).2 ⟨h2.1 _ (by simp), h3.1⟩
+    · cases hm : T.mutation with
+      | none => rfl
+      | some m => exact (isObjectNamed_iff T _).2 ⟨h2.1 _ (by simp [hm]), h3.2.1 m hm⟩
+    · cases hs : T.subscription with
+      | none => rfl
+      | some s => exact (isSubscriptionNamed_iff T _).2 ⟨h2.1 _ (by simp [hs]), h3.2.2 s hs⟩
+  case pos =>
+    unfold positionsTyped
+    rw [List.all_eq_true]
+    intro t ht
+    have hex := h2.2 t ht
+    cases t with
+    | object n is fs =>
+      simp only [fieldsOf, AGV.Spec.TypeSystem.inputFieldsOf, List.all_nil, Bool.and_true]
+      exact fields_typed_of_checks T n fs (fun x hx => hex x (by simp [refNames, hx])) (h4 n is fs ht).2.1
+    | interface n is fs =>
+      simp only [fieldsOf, AGV.Spec.TypeSystem.inputFieldsOf, List.all_nil, Bool.and_true]
+      exact fields_typed_of_checks T n fs (fun x hx => hex x (by simp [refNames, hx])) (h6 n is fs ht).1
+    | subscription n fs =>
+      simp only [fieldsOf, AGV.Spec.TypeSystem.inputFieldsOf, List.all_nil, Bool.and_true]
+      exact fields_typed_of_checks T n fs (fun x hx => hex x (by simp [refNames, hx])) (h8 n fs ht)
+    | inputObject n o fs =>
+      simp only [fieldsOf, AGV.Spec.TypeSystem.inputFieldsOf, List.all_nil, Bool.true_and, List.all_eq_true]
+      intro f hf
+      obtain ⟨_, hi, _⟩ := (checkInputField_ok_iff _ _ _ _).1 ((h5 n o fs ht).1 f hf)
+      refine (namesInput_iff T f.ty).2 ⟨?_, hi⟩
+      rw [getType_allTypes]
+      exact hex _ (by simp only [refNames, List.mem_map]; exact ⟨f, hf, rfl⟩)
+    | _ => rfl
+  case impl =>
+    unfold implementationsOk
+    rw [List.all_eq_true]
+    intro t ht
+    cases t with
+    | object n is fs => exact impls_of_checkImplements T _ n fs is (h4 n is fs ht).2.2
+    | interface n is fs => exact impls_of_checkImplements T _ n fs is (h6 n is fs ht).2.2
+    | _ => rfl
+  case unions =>
+    unfold unionMembersObjects
+    rw [List.all_eq_true]
+    intro t ht
+    cases t with
+    | union n ms =>
+      simp only [List.all_eq_true]
+      intro m hm
+      exact (isObjectNamed_iff T m).2 ⟨h2.2 _ ht m (by simpa [refNames] using hm), h7 n ms ht m hm⟩
+    | _ => rfl
+  case cycle =>
+    unfold noRequiredInputCycle
+    rw [List.all_eq_true]
+    intro t ht
+    cases t with
+    | inputObject n o fs =>
+      have hl := lookup_self T h1.2 _ ht
+      have hfs := (inputFieldsOf_eq_some T n fs).2 ⟨o, hl⟩
+      have := (refCheck_ok_iff T n fs hfs).1 (h5 n o fs ht).2
+      rw [← requiresItself_iff] at this
+      simpa using this
+    | _ => rfl
+
+
+/-- with every defect repaired, a type system valid by all of §3 is accepted -/
+theorem c33_accept_complete : ∀ T : TypeSystem, ValidTypeSystem T → check {} T = .ok () := by
+  intro T hv
+  obtain ⟨hr, he⟩ := hv
+  unfold Required required? at hr
+  unfold Extra extra? at he
+  simp only [Bool.and_eq_true] at hr he
+  obtain ⟨⟨⟨⟨hroots, hpos⟩, himpl⟩, hunion⟩, hcyc⟩ := hr
+  obtain ⟨⟨⟨⟨⟨⟨⟨hne, hresm⟩, _⟩, hii⟩, _⟩, hone⟩, huniq⟩, _⟩ := he
+  unfold rootsOk at hroots
+  simp only [Bool.and_eq_true] at hroots
+  obtain ⟨⟨hq, hmu⟩, hsu⟩ := hroots
+  unfold positionsTyped at hpos
+  unfold implementationsOk at himpl
+  unfold unionMembersObjects at hunion
+  unfold noRequiredInputCycle at hcyc
+  unfold nonEmpty at hne
+  unfold noReservedMemberNames at hresm
+  unfold implementsInterfaces at hii
+  unfold oneOfOk at hone
+  unfold namesUnique at huniq
+  rw [List.all_eq_true] at hpos himpl hunion hcyc hne hresm hii hone
+  simp only [Bool.and_eq_true] at huniq
+  have hnd := (pairwiseDistinct_iff _).1 huniq.1
+  rw [List.nodup_append] at hnd
+  have hnames : (T.types.map (·.name)).Nodup := hnd.2.1
+  -- implements targets are interfaces
+  have hiface : ∀ t ∈ T.types, ∀ i ∈ implementsOf t, i ≠ t.name ∧ (match lookup T i with
+      | some (.interface ..) => true
+      | _ => false) = true := by
+    intro t ht i hi
+    have := hii t ht
+    rw [List.all_eq_true] at this
+    have := this i hi
+    simp only [Bool.and_eq_true, bne_iff_ne, ne_eq] at this
+    exact this
+  have hifaceSome : ∀ t ∈ T.types, ∀ i ∈ implementsOf t, (lookup T i).isSome = true := by
+    intro t ht i hi
+    have := (hiface t ht i hi).2
+    cases hl : lookup T i with
+    | none => simp [hl] at this
+    | some _ => rfl
+  rw [c33_check_stages]
+  refine ⟨?s1, ?s2, ?s3, ?s4, ?s5, ?s6, ?s7, ?s8⟩
+  case s1 =>
+    rw [register_ok_iff]
+    refine ⟨?_, hnames⟩
+    intro t ht hmem
+    rw [mem_builtinNames] at hmem
+    exact hnd.2.2 _ hmem _ (List.mem_map.2 ⟨t, ht, rfl⟩) rfl
+  case s2 =>
+    rw [checkTypesExists_ok_iff]
+    constructor
+    · intro n hn
+      simp only [List.mem_append, List.mem_singleton, Option.mem_toList] at hn
+      rcases hn with (rfl | hn) | hn
+      · exact ((isObjectNamed_iff T _).1 hq).1
+      · rw [hn] at hmu; exact ((isObjectNamed_iff T _).1 (by simpa using hmu)).1
+      · rw [hn] at hsu; exact ((isSubscriptionNamed_iff T _).1 (by simpa using hsu)).1
+    · intro t ht n hn
+      have hp := hpos t ht
+      have hrs := hresm t ht
+      simp only [Bool.and_eq_true] at hp hrs
+      cases t with
+      | object nm is fs =>
+        simp only [refNames, List.mem_append] at hn
+        rcases hn with hn | hn
+        · exact (fields_checks_of_typed T nm fs hp.1 hrs.1).2 n hn
+        · exact hifaceSome _ ht n hn
+      | interface nm is fs => exact (fields_checks_of_typed T nm fs hp.1 hrs.1).2 n hn
+      | subscription nm fs => exact (fields_checks_of_typed T nm fs hp.1 hrs.1).2 n hn
+      | inputObject nm o fs =>
+        simp only [refNames, List.mem_map] at hn
+        obtain ⟨f, hf, rfl⟩ := hn
+        have := hp.2
+        simp only [AGV.Spec.TypeSystem.inputFieldsOf, List.all_eq_true] at this
+        have := ((namesInput_iff T f.ty).1 (this f hf)).1
+        rwa [getType_allTypes] at this
+      | union nm ms =>
+        have := hunion _ ht
+        simp only [List.all_eq_true] at this
+        exact ((isObjectNamed_iff T n).1 (this n hn)).1
+      | enum nm items => simp [refNames] at hn
+      | scalar nm => simp [refNames] at hn
+      | upload => simp [refNames] at hn
+  case s3 =>
+    rw [checkRootTypes_ok_iff]
+    refine ⟨((isObjectNamed_iff T _).1 hq).2, ?_, ?_⟩
+    · intro m hm
+      rw [hm] at hmu; exact ((isObjectNamed_iff T _).1 (by simpa using hmu)).2
+    · intro s hs
+      rw [hs] at hsu; exact ((isSubscriptionNamed_iff T _).1 (by simpa using hsu)).2
+  case s4 =>
+    rw [checkObjects_ok_iff]
+    intro nm is fs ht
+    have hp := hpos _ ht
+    have hrs := hresm _ ht
+    have hn := hne _ ht
+    simp only [Bool.and_eq_true] at hp hrs
+    refine ⟨by simpa using hn, (fields_checks_of_typed T nm fs hp.1 hrs.1).1, ?_⟩
+    exact checkImplements_of_spec T _ nm fs is (fun i hi => (hiface _ ht i hi).2) (himpl _ ht)
+  case s5 =>
+    rw [checkInputObjects_ok_iff]
+    intro nm o fs ht
+    have hp := hpos _ ht
+    have hrs := hresm _ ht
+    simp only [Bool.and_eq_true, AGV.Spec.TypeSystem.inputFieldsOf, List.all_eq_true, Bool.not_eq_true'] at hp hrs
+    constructor
+    · intro f hf
+      rw [checkInputField_ok_iff]
+      refine ⟨hrs.2 f hf, ((namesInput_iff T f.ty).1 (hp.2 f hf)).2, ?_⟩
+      intro ho
+      subst ho
+      have := hone _ ht
+      simp only [List.all_eq_true, Bool.and_eq_true, Bool.not_eq_true'] at this
+      exact this f hf
+    · have hl := lookup_self T hnames _ ht
+      have hfs := (inputFieldsOf_eq_some T nm fs).2 ⟨o, hl⟩
+      rw [refCheck_ok_iff T nm fs hfs, ← requiresItself_iff]
+      have := hcyc _ ht
+      simpa using this
+  case s6 =>
+    rw [checkInterfaces_ok_iff]
+    intro nm is fs ht
+    have hp := hpos _ ht
+    have hrs := hresm _ ht
+    simp only [Bool.and_eq_true] at hp hrs
+    refine ⟨(fields_checks_of_typed T nm fs hp.1 hrs.1).1, ?_, ?_⟩
+    · simp only [List.contains_eq_mem, decide_eq_false_iff_not]
+      intro hmem
+      exact (hiface _ ht nm hmem).1 rfl
+    · exact checkImplements_of_spec T _ nm fs is (fun i hi => (hiface _ ht i hi).2) (himpl _ ht)
+  case s7 =>
+    rw [checkUnions_ok_iff]
+    intro nm ms ht m hm
+    have := hunion _ ht
+    simp only [List.all_eq_true] at this
+    exact ((isObjectNamed_iff T m).1 (this m hm)).2
+  case s8 =>
+    rw [checkSubscriptions_ok_iff]
+    intro nm fs ht
+    have hp := hpos _ ht
+    have hrs := hresm _ ht
+    simp only [Bool.and_eq_true] at hp hrs
+    exact (fields_checks_of_typed T nm fs hp.1 hrs.1).1
+
+
+/-- the model's cycle search on the fields of a registered input object `n` (fuel and empty chain
+    as `check_input_objects` starts it) succeeds exactly when `n` does not require itself -/
+theorem c33_cycle_search_is_requires (T : TypeSystem) (n : String) (fs : List InputValue)
+    (hfs : AGV.Model.DynCheck.inputFieldsOf (allTypes T) n = some fs) :
+    refCheck (allTypes T) n ((allTypes T).length + 1) [] fs = .ok () ↔ ¬ Requires T n n := refCheck_ok_iff T n fs hfs
+
+/-- the reference's closure computation (|types| rounds) decides the inductive relation -/
+theorem c33_requiresItself_is_requires (T : TypeSystem) (n : String) : requiresItself T n = true ↔ Requires T n n :=
+  requiresItself_iff T n
+
 -- ------------------------------------------------------------------ witnesses of the pinned tree's defects
 
 def intT : TypeRef := .named "Int"
@@ -160,5 +497,29 @@ theorem c33_repaired_on_witnesses :
     accepted (run {} wReversed) = true ∧ accepted (run {} wReversed2) = false ∧ accepted (run {} wNamed) = true ∧
     accepted (run {} wNullArg) = false ∧ accepted (run {} wArgCov) = false ∧ accepted (run {} wExtra) = false ∧
     accepted (run {} wSubRoot) = false ∧ accepted (run {} wSubFields) = false ∧ accepted (run {} wFieldless) = false := by decide
+
+-- ------------------------------------------------------------------ the hypotheses are satisfiable by non-trivial inputs
+
+/-- interfaces, interface-typed fields narrowed through membership: valid by all of §3 -/
+theorem valid_of_bools (T : TypeSystem) (h : (required? T && extra? T) = true) : ValidTypeSystem T := by
+  simp only [Bool.and_eq_true] at h; exact h
+
+example : ValidTypeSystem wNamed := valid_of_bools _ (by decide)
+example : check {} wNamed = .ok () := c33_accept_complete wNamed (valid_of_bools _ (by decide))
+
+/-- input objects referring to each other, the chain broken by a nullable field -/
+def wInputs := mk [.object "Query" [] [fld "a" intT [arg "x" (.named "A")]],
+  .inputObject "A" false [arg "b" (.nonNull (.named "B"))], .inputObject "B" false [arg "a" (.named "A")]]
+/-- the same with the chain closed: `A` requires `B` requires `A` -/
+def wInputCycle := mk [.object "Query" [] [fld "a" intT [arg "x" (.named "A")]],
+  .inputObject "A" false [arg "b" (.nonNull (.named "B"))], .inputObject "B" false [arg "a" (.nonNull (.named "A"))]]
+
+example : ValidTypeSystem wInputs := valid_of_bools _ (by decide)
+example : AGV.Model.DynCheck.inputFieldsOf (allTypes wInputCycle) "A" = some [arg "b" (.nonNull (.named "B"))] := by decide
+example : Requires wInputCycle "A" "A" := (c33_requiresItself_is_requires wInputCycle "A").1 (by decide)
+theorem wInputCycle_not_required : required? wInputCycle = false := by decide
+example : ¬ Required wInputCycle := fun h => by rw [Required, wInputCycle_not_required] at h; cases h
+example : check {} wInputCycle ≠ .ok () := fun h => by
+  have := c33_accept_sound _ h; rw [Required, wInputCycle_not_required] at this; cases this
 
 end AGV.Props.C33
